@@ -493,14 +493,17 @@ fn remaining(to_send: &Vec<Location, SEGMENT_BUFFER_MAX>, next_send: usize) -> (
 
 /// get_commands: takes exactly the next min(COMMAND_RESPONSE_MAX, remaining) commands, in order,
 /// skipping none; the returned index never decreases; a segment that did not fit completely is
-/// resumed at its first unsent command; the amount of remaining work drops by exactly the number
-/// of commands taken.
+/// resumed at its first unsent command (returned as `resume`, applied by `advance`); get_commands
+/// itself leaves next_send and to_send untouched; after `advance` the amount of remaining work has
+/// dropped by exactly the number of commands taken.
 fn get_commands_case(a: u64, b: u64, ns: usize) -> (usize, usize) {
     let mut provider = chain_provider();
     let mut r = sending_responder(a, b, ns);
     let (exp, m) = remaining(&r.to_send, ns);
 
-    let (cmds, data, idx) = match r.get_commands(&mut provider) {
+    let pre0 = r.to_send[0];
+    let pre1 = r.to_send[1];
+    let (cmds, data, idx, resume) = match r.get_commands(&mut provider) {
         Ok(x) => x,
         Err(_) => panic!("get_commands failed on a stored chain"),
     };
@@ -513,19 +516,38 @@ fn get_commands_case(a: u64, b: u64, ns: usize) -> (usize, usize) {
         assert!(id_byte(cmds[j].id) == exp[j]);
         assert!(cmds[j].length == 2 && cmds[j].policy_length == 0);
     }
-    // bookkeeping
+    // get_commands itself changes nothing in the session (fix e51d0d6): the position is RETURNED
+    assert!(r.next_send == ns);
+    assert!(r.to_send.len() == 2 && r.to_send[0] == pre0 && r.to_send[1] == pre1);
     assert!(idx >= ns && idx <= 2);
+    // resume position: Some((i, first unsent location)) exactly when a segment did not fit
+    match resume {
+        None => {
+            assert!(m <= COMMAND_RESPONSE_MAX);
+            assert!(idx == 2);
+        }
+        Some((i, l)) => {
+            assert!(m > COMMAND_RESPONSE_MAX);
+            assert!(i == idx && i < 2);
+            let start = if i == 0 { pre0 } else { pre1 };
+            assert!(l.segment == start.segment);
+            // commands taken from the segments before entry i (only s0 can precede)
+            let before = if i == 1 && ns == 0 { 3 - pre0.max_cut.get() as usize } else { 0 };
+            assert!(l.max_cut.get() == start.max_cut.get() + (want - before) as u64);
+        }
+    }
+    // committing the returned position (the real `advance`) leaves exactly the unsent tail
+    match r.advance(idx, resume) {
+        Ok(()) => {}
+        Err(_) => panic!("advance failed"),
+    }
+    assert!(r.next_send == idx);
     let (exp2, m2) = remaining(&r.to_send, idx);
     assert!(m2 == m - want);
-    // what remains is exactly the tail of what was expected
     let k: usize = kani::any();
     if k < m2 {
         assert!(exp2[k] == exp[want + k]);
     }
-    if m <= COMMAND_RESPONSE_MAX {
-        assert!(idx == 2);
-    }
-    assert!(r.next_send == ns); // get_commands does not advance the session itself
     core::mem::forget(cmds);
     core::mem::forget(data);
     (m, idx)
@@ -612,6 +634,9 @@ fn c17_get_next_sync_end() {
     kani::cover!(true, "SyncEnd when exhausted");
 }
 
+/// Regression check for the defect fixed in /repo e51d0d6 (before the fix get_commands wrote the
+/// resume position into to_send and this harness failed at `m2 == m`; native reproduction:
+/// /verif/findings/c17_get_next_retry_native_test.rs).
 /// "Don't advance the session until the whole message fits, so the caller can retry with a larger
 /// buffer without losing commands" (comment in get_next): after a failed get_next the responder
 /// must still send the same commands. to_send = [(s0,1), (s1,3)], next_send = 0: six commands
@@ -629,6 +654,7 @@ fn c17_get_next_retry_loses_nothing() {
     assert!(first.is_err());
     // session not advanced ...
     assert!(r.message_index == mi && r.next_send == 0);
+    assert!(r.to_send.len() == 2 && r.to_send[0] == loc(0, 1) && r.to_send[1] == loc(1, 3));
     // ... and the retry would deliver the same commands
     let (exp2, m2) = remaining(&r.to_send, r.next_send);
     assert!(m2 == m);
